@@ -205,7 +205,7 @@ class SqlImpl(TableImpl):
     # some backends need to do casting to ensure the correct type
     @classmethod
     def compile_lit(cls, lit: LiteralCol):
-        if types.without_const(lit.dtype()).is_float():
+        if lit.val is not None and types.without_const(lit.dtype()).is_float():
             if math.isnan(lit.val):
                 return cls.nan()
             elif math.isinf(lit.val):
@@ -489,8 +489,7 @@ class SqlImpl(TableImpl):
                 query.partition_by = nd.group_by
 
         elif isinstance(nd, verbs.Ungroup):
-            assert not (query.partition_by and query.group_by)
-            query.partition_by.clear()
+            query.partition_by = []
 
         elif isinstance(nd, verbs.Join):
             right_table, right_query, right_sqa_expr = cls.compile_ast(nd.right, needed_cols)
